@@ -8,7 +8,9 @@ Agree(v, pat, pre, k) ==
     GenUpdatePeriodic(v, g0, pat, pre, k) = GenUpdate(v, g0, PeriodicData(pat, pre, k))
 ASSUME \A v \in {VShort, VNormal, VLong} : \A pat \in Pats : \A pre \in {0, 1, 3, 4, 5, 9} :
            \A k \in {0, 1, 3, 16, 17, 18, 21, 40, 300, 777} : Agree(v, pat, pre, k)
-ASSUME \A pat \in Pats : Agree(VNormalLC, pat, 2, 50)        \* three-byte checksums fall back to stepping
+\* three-byte checksums: buckets by the closed form, the checksum stepped
+ASSUME \A v \in {VNormalLC, VLongLC} : \A pat \in Pats : \A pre \in {0, 2, 5, 9} :
+           \A k \in {0, 3, 16, 17, 21, 50, 300, 777} : Agree(v, pat, pre, k)
 \* the wide closed form agrees with the narrow one (and hence with stepping)
 AgreeW(v, pat, pre, k) ==
     LET g0 == GenUpdate(v, GenNew(v), PeriodicData(pat, 0, pre)) IN
